@@ -215,7 +215,17 @@ pick(void)
         window_hits++;
         T[cur].at = "window_seen"; // count each stop once
     }
-    if (window_left > 0) {
+    if (window_left > 0 && C.window_exclude) {
+        window_left--;
+        if ((mask & (1u << C.window_thread)) && n > 1) { // drop the excluded thread from the candidates
+            int m = 0;
+            for (int i = 0; i < n; i++)
+                if (c[i] != C.window_thread)
+                    c[m++] = c[i];
+            n = m;
+            mask &= ~(1u << C.window_thread);
+        }
+    } else if (window_left > 0) {
         window_left--;
         if (mask & (1u << C.window_thread))
             k = C.window_thread;
